@@ -18,15 +18,19 @@ MOD = "nv.checks.c06"
 OPTS = ["retain_names", "retain_coefficients", "sort_graded", "sort_reverse"]
 
 
-def _designate(d, names):
+def _designate(d, names, p=None):
     import numpoly
 
+    if isinstance(d, dict) and "own" in d:
+        return p.indeterminants[list(p.names).index(d["own"])]  # the polynomial's own indeterminant (carries all of its names)
     if isinstance(d, dict):
         return numpoly.symbols(d["indet"])
     return d
 
 
 def _name_of(d, names):
+    if isinstance(d, dict) and "own" in d:
+        return d["own"]
     if isinstance(d, dict):
         return d["indet"]
     if isinstance(d, int):
@@ -117,7 +121,7 @@ def body(ctx: H.BaseCtx):
     fn = case["fn"]
     try:
         if fn == "derivative":
-            r = numpoly.derivative(p, *[_designate(d, names) for d in case["diffvars"]])
+            r = numpoly.derivative(p, *[_designate(d, names, p) for d in case["diffvars"]])
         elif fn == "gradient":
             r = numpoly.gradient(p)
         else:
@@ -186,7 +190,7 @@ def gen_cases(tier: str, seed: int) -> List[Dict]:
                 dv = []
                 for _j in range(nd):
                     i = rng.randrange(len(names))
-                    dv.append(rng.choice([names[i], i, {"indet": names[i]}, i - len(names)]))  # (negative positions count from the end)
+                    dv.append(rng.choice([names[i], i, {"indet": names[i]}, i - len(names), {"own": names[i]}]))  # (negative positions count from the end)
                 c["diffvars"] = dv
             n += 1
             c["id"] = "%s-%03d-%s" % (PROP, n, kind)
